@@ -240,15 +240,20 @@ CLAIMS = {
               'only; pack roll-over inside one call is not in the programs.'),
         design='4/C17'),
     'C18': dict(
-        technique='Coq descriptor-tracking theorem + one-handle-at-a-time/balance theorems for every write program (all inputs) + fd census, tracemalloc, trace write sizes',
+        technique='Coq descriptor-tracking theorem + one-handle-at-a-time/balance theorems for every write program and for the bulk read generator (all inputs) + event correspondence, fd census, tracemalloc, trace write sizes',
         text=('PROOF (Coq, closed): C18_handles_tracked (open write handles after ANY trace = opens minus closes), C18_add_loose_balanced / _bounded, '
               'C18_pack_one_handle_at_a_time, C18_import_one_handle_at_a_time (covers direct-to-pack), C18_repack_one_handle_at_a_time (ANY number of '
               'objects, batches, packs: the call closes what it opens and at every prefix holds at most one handle more than before), '
-              'C18_delete_and_clean_open_nothing, chunk constants bounded. TIE/MEASURED: the programs reproduce the intercepted traces; '
+              'C18_delete_and_clean_open_nothing, chunk constants bounded; READ SIDE: LookupFd.lookup_events is the sequence of opens / closes / yields / session '
+              'resets of the bulk generator, C18_bulk_read_events_are_the_answers (it carries exactly the answers of Lookup.lookup_bulk), '
+              'C18_bulk_read_one_file_at_a_time (ALL requests, thresholds, snapshots, loose folders: at every point of the call at most one pack or '
+              'loose file more than before is open, none when it ends), C18_bulk_meta_opens_nothing. TIE/MEASURED: the programs reproduce the '
+              'intercepted traces; the extracted lookup_events reproduces the opens/closes of pack and loose files, the failed opens, the session '
+              'resets and the yields intercepted during real bulk calls (blocks per file, per phase); '
               '/proc/self/fd census after every step of 60 histories and after close(), 60 rounds of pack operations with flat descriptor count, '
               'at most pack+cache open during bulk reads with seeks on compressed objects, LazyOpener inputs open one at a time, largest single '
               'write from the trace <= chunk bound, tracemalloc peak of 8 streaming paths at 4/16 MiB (thorough 16/64) flat and < 12 MiB. '
-              'PARTIAL: memory and read-side descriptors are measured, not proved; CPython finalisation and allocator are outside the model.'),
+              'PARTIAL: memory, the re-loosened cache stream a seeking consumer triggers, the SQLite descriptors and the single-object read entry points are measured, not proved; CPython finalisation and allocator are outside the model.'),
         design='4/C18'),
 }
 
